@@ -10,6 +10,7 @@ import (
 	"errors"
 	"filippo.io/age/internal/format"
 	"fmt"
+	"strings"
 
 	"filippo.io/age"
 	"filippo.io/age/agessh"
@@ -69,13 +70,23 @@ func unwrapClass(key []byte, err error) string {
 func checkC19(c *Ctx) {
 	c.rule = "identity values (declared public key A, private-key file of A or of B), for ssh-ed25519 (OpenSSH format, bcrypt KDF) and ssh-rsa (legacy encrypted PEM); stanza lists: addressed to A, to B, to an unrelated key C, to A with the matching stanza at each position among grease / other-type / same-type-other-tag stanzas, empty-ish lists; ALL call sequences of length <= 2 (quick: ed25519 sampled beyond length 1) plus, in the thorough tier, a sample of those of length 3 (1/10 for rsa, 1/120 for ed25519) over {stanza list} x {right passphrase, wrong passphrase, failing callback}. Per call: result class and file key, whether the callback ran — implementation vs model; oracle: after EVERY history, every file probed with the right passphrase gives what a fresh identity gives. distinct_nontrivial = distinct (identity, history) cases."
 	fileKey := c.rng.bytes(16)
-	for _, fam := range []string{"ed25519", "rsa"} {
-		var A, B, C *sshKeyMat
-		if fam == "ed25519" {
-			A, B, C = c.mkEdKey("A"), c.mkEdKey("B"), c.mkEdKey("C")
-		} else {
-			A, B, C = c.mkRSAKey("A", 0), c.mkRSAKey("B", 1), c.mkRSAKey("C", 2)
-		}
+	type famCase struct {
+		fam     string
+		A, B, C *sshKeyMat   // A = the DECLARED public key of the identity value
+		pems    []*sshKeyMat // whose private key the encrypted file holds
+		neg     bool
+	}
+	edA, edB, edC := c.mkEdKey("A"), c.mkEdKey("B"), c.mkEdKey("C")
+	cases := []famCase{
+		{"ed25519", edA, edB, edC, []*sshKeyMat{edA, edB}, false},
+		{"rsa", c.mkRSAKey("A", 0), c.mkRSAKey("B", 1), c.mkRSAKey("C", 2), nil, false},
+		// the declared key is the NEGATED point of the stored key (its Ed25519 encoding with the sign bit of x
+		// flipped): another valid key with another tag but the same Montgomery u-coordinate
+		{"ed25519", negatedEd(edA), edA, edC, []*sshKeyMat{edA}, true},
+	}
+	cases[1].pems = []*sshKeyMat{cases[1].A, cases[1].B}
+	for _, fc := range cases {
+		fam, A, B, C := fc.fam, fc.A, fc.B, fc.C
 		wrapTo := func(k *sshKeyMat) *age.Stanza {
 			clearTape()
 			st, err := k.party.rcpt.Wrap(fileKey)
@@ -103,10 +114,19 @@ func checkC19(c *Ctx) {
 			files["other-type-same-tag"] = []*age.Stanza{{Type: "ssh-ed25519", Args: []string{sA.Args[0], format.EncodeToString(c.rng.bytes(32))}, Body: c.rng.bytes(32)}}
 		}
 		files["other-type-same-tag-then-B"] = append(append([]*age.Stanza{}, files["other-type-same-tag"]...), sB)
-		fnames := []string{"toA", "toB", "toC", "toA-last", "toA-middle", "toAB", "toBA", "none"}
+		// a malformed stanza of the identity's own type (foreign tag) in front of the matching one
+		if fam == "ed25519" {
+			files["malformed-own-type-then-A"] = []*age.Stanza{{Type: "ssh-ed25519", Args: []string{"AAAAAA"}, Body: make([]byte, 32)}, sA}
+		} else {
+			files["malformed-own-type-then-A"] = []*age.Stanza{{Type: "ssh-rsa", Args: []string{"AAAAAA", "extra"}, Body: make([]byte, 32)}, sA}
+		}
+		fnames := []string{"toA", "toB", "toC", "toA-last", "toA-middle", "toAB", "toBA", "none", "malformed-own-type-then-A"}
+		if fc.neg {
+			fnames = []string{"toA", "toB", "toAB", "toBA"} // declared (negated) key, stored key
+		}
 		freshNames := append(append([]string{}, fnames...), "other-type-same-tag", "other-type-same-tag-then-B")
 		answers := []string{"right", "wrong", "fail"}
-		for _, pemOf := range []*sshKeyMat{A, B} {
+		for _, pemOf := range fc.pems {
 			mkIdentity := func(count *int, answer *string) *agessh.EncryptedSSHIdentity {
 				id, err := agessh.NewEncryptedSSHIdentity(A.pub, pemOf.pem, func() ([]byte, error) {
 					*count++
@@ -171,6 +191,13 @@ func checkC19(c *Ctx) {
 						}
 						calls = append(calls, lst(lst(items...), a))
 					}
+					if fc.neg {
+						// the file holds the private key of ANOTHER public key than the declared one: nothing may ever open
+						for k, r := range impl {
+							c.Oracle("mismatched-key-file-never-decrypts", !strings.HasPrefix(r, "((:ok"), "mismatched-key-accepted", map[string]interface{}{"family": fam, "declared": "-P (negated point)", "pem_of": "P", "history": h, "call": k},
+								"an identity whose declared public key is not the one of its private-key file returned a file key")
+						}
+					}
 					model := c.model.Call("sshenc", hxs(A.ty), hx(A.pub.Marshal()), lst(calls...))
 					in := map[string]interface{}{"family": fam, "declared": "A", "pem_of": pemOf.name, "history": h}
 					c.Compare("EncryptedSSHIdentity.Unwrap~SshEnc.enc_unwrap", in, lst(impl...), model)
@@ -219,7 +246,7 @@ func checkC19(c *Ctx) {
 			rec(nil)
 		}
 		// the malformed-own-type stanza (model: C19_history_free_malformed_refuted)
-		{
+		if !fc.neg {
 			cnt, ans := 0, "right"
 			id, _ := agessh.NewEncryptedSSHIdentity(A.pub, A.pem, func() ([]byte, error) { cnt++; return []byte(ans), nil })
 			var mal *age.Stanza
@@ -239,4 +266,24 @@ func checkC19(c *Ctx) {
 		}
 	}
 	c.model.extra = nil
+}
+
+// negatedEd: the key material of -P for the Ed25519 public key P of k: a public key only (the same
+// encrypted private-key file is used with it), with a recipient so that files can be addressed to it.
+func negatedEd(k *sshKeyMat) *sshKeyMat {
+	cp, ok := k.pub.(ssh.CryptoPublicKey)
+	if !ok {
+		panic("not a crypto public key")
+	}
+	raw := append([]byte{}, cp.CryptoPublicKey().(ed25519.PublicKey)...)
+	raw[31] ^= 0x80
+	pub, err := ssh.NewPublicKey(ed25519.PublicKey(raw))
+	if err != nil {
+		panic(err)
+	}
+	r, err := agessh.NewEd25519Recipient(pub)
+	if err != nil {
+		panic(err)
+	}
+	return &sshKeyMat{name: k.name + "-negated", party: &party{kind: "ssh-ed25519", rcpt: r, name: "sshed-negated"}, pub: pub, pem: k.pem, ty: "ssh-ed25519"}
 }
